@@ -27,8 +27,11 @@ func c30Determinism() *explore.Scenario {
 	return &explore.Scenario{
 		Name: "determinism-and-salts",
 		Run: func(x *explore.X) (r explore.Result) {
-			i := x.Choose("seed", 256)
+			i := x.Choose("seed", 257)
 			seed := seedN(i)
+			if i == 256 {
+				seed = &tls.PRNGSeed{} // the all-zero seed is a seed like any other
+			}
 			a, _ := tls.VerifNewPRNG(seed, nil)
 			b, _ := tls.VerifNewPRNG(seed, nil)
 			ba, bb := make([]byte, 100), make([]byte, 100)
@@ -82,10 +85,10 @@ func c30Determinism() *explore.Scenario {
 				streams[salt] = string(s1)
 			}
 			// deriving from a seed does not change the seed object the caller holds
-			if *seed != *seedN(i) {
+			if i < 256 && *seed != *seedN(i) {
 				r.Violate("C30|seed-object-mutated", "seed %d: the PRNGSeed passed to the constructors was modified", i)
 			}
-			if s2, err := tls.VerifSaltedSeed(seed, "ALPS"); err != nil || s2 == seed || *seed != *seedN(i) {
+			if s2, err := tls.VerifSaltedSeed(seed, "ALPS"); err != nil || s2 == seed || (i < 256 && *seed != *seedN(i)) {
 				r.Violate("C30|seed-object-mutated|salted", "seed %d: newSaltedPRNGSeed returned its argument or modified it (err %v)", i, err)
 			}
 			// different seeds give different streams
@@ -379,7 +382,7 @@ func init() {
 	register(&Prop{ID: "C30", Level: "model_checking", Variant: "B", Scenarios: c30Scenarios,
 		RaceScenarios: func(thorough bool) []*explore.Scenario { return []*explore.Scenario{c30Concurrent(0)} },
 		Run: func(c *explore.Check, thorough bool) {
-			c.Rule = "256 enumerated seeds x {unsalted, 3 salts}: two instances, different chunking, equality with an independent SHAKE256(seed); Intn/Int63n on n in [-3,300] u {2^k,2^k+-1}, Range on [-3,40]^2 and on the 9x9 grid of int extremes {MinInt, MinInt+1, -1, 0, 1, 2, 40, MaxInt-1, MaxInt} (no panic, in range), Intn/Int63n at the int extremes, FlipWeightedCoin on weight corners, 8 seeds x 16-256 draws each; concurrency: every schedule (<=2 preemptions quick, unbounded with happens-before pruning thorough) of 3 threads x 2 draws (Read 8/3/0/5, Uint64, Intn) over a 4^3 program menu on one prng - the chunks handed out must be disjoint contiguous pieces of the sequential stream. distinct = (programs, stream layout)"
+			c.Rule = "257 enumerated seeds (incl. all-zero) x {unsalted, 3 salts}: two instances, different chunking, equality with an independent SHAKE256(seed); Intn/Int63n on n in [-3,300] u {2^k,2^k+-1}, Range on [-3,40]^2 and on the 9x9 grid of int extremes {MinInt, MinInt+1, -1, 0, 1, 2, 40, MaxInt-1, MaxInt} (no panic, in range), Intn/Int63n at the int extremes, FlipWeightedCoin on weight corners, 8 seeds x 16-256 draws each; concurrency: every schedule (<=2 preemptions quick, unbounded with happens-before pruning thorough) of 3 threads x 2 draws (Read 8/3/0/5, Uint64, Intn) over a 4^3 program menu on one prng - the chunks handed out must be disjoint contiguous pieces of the sequential stream. distinct = (programs, stream layout)"
 			c.Assumptions = []string{"scheduling points are the prng mutex operations; the SHAKE state itself is not interleaved below that (a draw that bypasses the mutex is observed as an overlapping/non-contiguous chunk only if a schedule point separates its parts; the free-running -race pass covers the rest)"}
 			runAll(c, c30Scenarios(thorough), 0)
 			attachRacePass(c)
